@@ -88,6 +88,13 @@ def plan(S, prop, mode, tier, avoid):
                        "func": chance(r, 0.35), "via_xrange": chance(r, 0.4),
                        "dens": pick(r, ["flat", "gauss", "power", "rough", "steep", "fartail"]),
                        "x0": round(r.uniform(-100, 100), 3), "w": float("%.3g" % (10 ** r.uniform(-3, 3)))})
+            if chance(r, 0.12):
+                # two samplers built one after the other from the SAME density object on the SAME grid; the object's
+                # parameters change in between
+                op.update({"func": True, "via_xrange": True, "cumulative": False, "shared": True})
+                sib = dict(op, seed=r.randrange(1 << 30), dens=pick(r, [d_ for d_ in ["flat", "gauss", "power", "steep"] if d_ != op["dens"]]))
+                ops.append(dict(op))
+                op = sib
             if op["dens"] == "fartail" and op["cumulative"]:
                 # a caller-supplied cumulative table with runs of equal values describes a density that is zero
                 # there: outside the quantifier (positive densities).  Far tails only through the density itself
@@ -424,6 +431,17 @@ def _density(op):
     return x, pofx
 
 
+class _SharedDensity(object):
+    """ONE density object per run whose parameters the caller changes between the samplers it builds from it
+    (`model.pdf` after a fit was updated): the bound method handed to the sampler is the 'same function' each time"""
+
+    def __init__(self):
+        self.f = None
+
+    def pofx(self, xx):
+        return self.f(xx)
+
+
 def do_sampler(run, op):
     from esutil import random as erandom
     judge = run.prop == "C19"
@@ -455,6 +473,14 @@ def do_sampler(run, op):
                     return np.interp(xx, tx, tc)
             else:
                 fn = pofx
+                if op.get("shared"):
+                    holder = getattr(run, "_shared_density", None)
+                    if holder is None:
+                        holder = run._shared_density = _SharedDensity()
+                    else:
+                        run.fault("same_density_object_with_changed_parameters")
+                    holder.f = pofx
+                    fn = holder.pofx
             if op["via_xrange"] and not op["cumulative"]:
                 # the grid is generated by the sampler: use the same linspace for the reference
                 x = np.linspace(x[0], x[-1], x.size)
@@ -531,6 +557,15 @@ def do_sampler(run, op):
             lo[t] = hi[t] = xv[a] + (u[t] - pc[a]) * sl
             loc[t] = sl
     tol = 1e-12 * width + 64 * np.finfo("f8").eps * loc + 1e-12 * abs(op["x0"])
+    # "grid points are returned exactly where u equals their cumulative value": for a deviate that IS a tabulated
+    # cumulative value the interpolation formula reproduces the grid point to a few ulps of the point and of the
+    # adjacent interval, however steep the inverse distribution is there (faint tails: dx/dp ~ 1e13)
+    exact = onrun & (jr - jl == 1)
+    for t in np.nonzero(exact)[0]:
+        j = int(jl[t])
+        dv = abs(xv[j] - xv[j - 1]) if j > 0 else abs(xv[1] - xv[0])
+        tol[t] = 64 * np.finfo("f8").eps * (abs(xv[j]) + dv) + 1e-300
+        run.probe("deviate_equal_to_a_tabulated_cumulative_value")
     inside = (u >= pc[0]) & (u <= pc[-1])
     # a table that STARTS with a run of equal values has no interval to interpolate in for u equal to that value
     # (same situation as the single-entry table of a 2-point grid): left unconstrained
